@@ -41,6 +41,9 @@ def fresh_vector(n, bounds=None, prefix="opt"):
     return core.lift_arr(xs)
 
 
+CLAMP_INIT_MODE = {"mode": "root"}     # "any": the creation position need not be on the manifold; the result is then arbitrary
+
+
 def minimize_exact_root(fun, x0, bounds=None, tol=None, **kw):
     """ClampBase.get_params: the minimiser of a distance whose minimum 0 is attainable returns parameters x with
     fun(x) == 0 (contract of an exact minimiser for a position on the manifold); x is otherwise arbitrary in bounds."""
@@ -50,6 +53,8 @@ def minimize_exact_root(fun, x0, bounds=None, tol=None, **kw):
         return scipy.optimize.minimize(fun, x0, bounds=bounds, tol=tol, **kw)
     x = fresh_vector(len(x0), bounds, "clampinit")
     val = R.lift(fun(x))
+    if CLAMP_INIT_MODE["mode"] == "any":
+        return Result(x, val)
     c = val.concrete()
     if c is not None:
         if c != 0:
